@@ -9,6 +9,7 @@ fn main() {
         Some("multisig") => multisig::main(&args[2..]),
         Some("minerctl") => minerctl::main(&args[2..]),
         Some("market") => market::main(&args[2..]),
+        Some("initd") => initd::main(&args[2..]),
         _ => {
             eprintln!("usage: drive <subsystem> ...");
             std::process::exit(2);
